@@ -2,7 +2,7 @@
    tuples, arithmetic, constants are all preserved). *)
 From Coq Require Import List String Bool Arith PeanoNat Lia Permutation Sorted.
 From PAFC01 Require Import ModelTree Sorting.
-From PAFC01 Require Proofs Proofs2 Proofs6.
+From PAFC01 Require Proofs Proofs2 Proofs8.
 From PAFC12 Require Import Gen Model Lib Proofs.
 Import ListNotations.
 Local Open Scope string_scope.
@@ -119,7 +119,7 @@ Section I.
       assert (Hk := rebuild_is_const uc c' Ec).
       destruct (is_const V uc) eqn:K.
       + destruct uc; try discriminate K. destruct c'; try discriminate Hk. reflexivity.
-      + rewrite (PAFC01.Proofs6.inst_un V bin un args' uo unm c' Hk), (PAFC01.Proofs6.inst_un V bin un args uo unm uc K), Hi.
+      + rewrite (PAFC01.Proofs8.inst_un V bin un args' uo unm c' Hk), (PAFC01.Proofs8.inst_un V bin un args uo unm uc K), Hi.
         reflexivity.
     - rewrite rebuild_model in E. destruct (rebuild_attrs V sigma attrs) as [a'|] eqn:Ea; [|discriminate].
       inversion E; subst. apply wf_model in W.
